@@ -2,6 +2,7 @@ use crate::prng::Rng;
 use std::collections::BTreeMap;
 
 pub mod dos;
+pub mod spec;
 pub mod fault;
 pub mod aes;
 pub mod layers;
@@ -69,6 +70,7 @@ pub fn all() -> Vec<Box<dyn Stream>> {
         Box::new(layers::Layers),
         Box::new(layers::Damage),
         Box::new(aes::Aes),
+        Box::new(spec::SpecStream),
     ]
 }
 
